@@ -34,7 +34,7 @@ func tierBounds() []bounds {
 	if vk.Thorough() {
 		return []bounds{{4, 7}, {7, 3}, {5, 6}, {6, 4}} // cheapest first: a deadline cut hits the largest space only
 	}
-	return []bounds{{5, 3}, {4, 4}, {3, 7}}
+	return []bounds{{5, 3}, {4, 4}, {2, 7}}
 }
 
 var (
